@@ -227,10 +227,15 @@ def write_replay(prop, clause: Clause, failure: Failure):
 def rerun_replay(run_fn):
   """Replay for bounded clauses: re-evaluates the clause (real functions on the same enumerated inputs) and reports
   whether the recorded obligation fails again.  The witness carries _key/_tier/_seed (added by the cli)."""
+  cache = {}
+
   def replay(w):
     w = w if isinstance(w, dict) else {}
     ctx = Ctx(tier=w.get('_tier', 'quick'), seed=int(w.get('_seed', 0)), prop=w.get('_prop', ''))
-    o = run_fn(ctx)
+    ck = (ctx.tier, ctx.seed)
+    if ck not in cache:          # one re-evaluation serves every failed obligation of the clause
+      cache[ck] = run_fn(ctx)
+    o = cache[ck]
     hits = [f for f in o.failures if f.key == w.get('_key') or f.obligation == w.get('_obligation')]
     if hits:
       return True, f're-evaluated on the real code: obligation fails again: {hits[0].obligation}: {hits[0].detail[:500]}'
